@@ -301,7 +301,13 @@ func TestC07(t *testing.T) {
 	}
 	rec.Describe("case = a schema from the unevaluated* lens (tree of allOf/anyOf/oneOf/if-then-else/dependentSchemas/$ref/$dynamicRef/not to depth 4 over properties/patternProperties/additionalProperties resp. prefixItems/items/contains leaves, failing branches, cousins, nested unevaluated*) evaluated against ALL 16 objects over {a,b,c,d} resp. ALL 31 arrays over {1,\"x\"} of length<=4. Oracle: reference evaluator with explicit evaluated sets. Non-trivial (semantic rule): the specification's verdict differs from a deliberately wrong evaluator that ignores in-place annotations, or from one that leaks annotations of failed subschemas and of not — i.e. the verdict depends on exactly the annotation flow the property describes. Distinct = distinct (schema, instance).",
 		"single-resource documents: $dynamicRef is exercised as an annotation-carrying in-place applicator (its scoping is C06's)")
-	rapid.Check(t, func(t *rapid.T) {
+	rapid.Check(t, propC07(rec))
+}
+
+// propC07 is the property body, shared by TestC07 (rapid) and FuzzC07 (native fuzzing over
+// rapid's bit stream).
+func propC07(rec *ev.Recorder) func(t *rapid.T) {
+	return func(t *rapid.T) {
 		c := genC07(t)
 		rec.Class("mode:" + c.Mode)
 		fl := checkC07(c, rec)
@@ -314,7 +320,7 @@ func TestC07(t *testing.T) {
 			report(t, rec, c, fl)
 		}
 		rec.Case()
-	})
+	}
 }
 
 func init() {
